@@ -34,9 +34,22 @@ pub struct RunOutput {
     pub extra: std::collections::BTreeMap<String, u64>,
 }
 
+/// Where the simulated data directories live for the length of a run: VERIF_SCRATCH, else /dev/shm when it
+/// can be written to, else the system's temporary directory. Nothing is kept there between runs.
+pub fn scratch_base() -> String {
+    if let Ok(dir) = std::env::var("VERIF_SCRATCH") {
+        return dir;
+    }
+    let probe = format!("/dev/shm/.iggy-sim-probe-{}", std::process::id());
+    if std::fs::create_dir(&probe).is_ok() {
+        let _ = std::fs::remove_dir(&probe);
+        return "/dev/shm".into();
+    }
+    std::env::temp_dir().to_string_lossy().to_string()
+}
+
 pub fn scratch_dir(seed: u64) -> PathBuf {
-    let base = std::env::var("VERIF_SCRATCH").unwrap_or_else(|_| "/dev/shm".into());
-    PathBuf::from(format!("{base}/iggy-sim-{}-{}", std::process::id(), seed))
+    PathBuf::from(format!("{}/iggy-sim-{}-{}", scratch_base(), std::process::id(), seed))
 }
 
 fn opts_for(case: &Case) -> Opts {
